@@ -26,6 +26,9 @@ pub struct ExtraCase {
 }
 
 pub fn check_extra(c: &ExtraCase) -> Verdict {
+    if crate::refxml::is_utf16_like(c.input.as_bytes()) {
+        return Verdict::excluded("utf16-signature");
+    }
     let cuts = super::c02::normalise_cuts(c.input.as_bytes(), &c.cuts);
     let a = super::c07::try_de_debug(&c.target, &c.input, None);
     let b = super::c07::try_de_debug(&c.target, &c.input, Some(cuts.clone()));
@@ -43,13 +46,18 @@ pub fn info() -> PropInfo {
         run,
         replay,
         rule: "cases = (target type, UTF-8 document, cut set); targets are the 18 family types (values compared with ==) and the 26 further targets of C07 (compared through their Debug rendering). Documents: valid ones (serialized generated values), token-level mutations of them and token soup (C07's generators), and valid documents after C15's information-preserving rewrites (text split by CDATA/comments/PIs, references, re-quoted attributes, unknown content). Chunkings: piece sizes 1, 2, 3, 7, whole, and random cut sets through the harness-owned BufRead. Oracle: from_str and from_reader either both fail or both succeed with equal values (error values are not compared). Non-trivial = the document contains mixed text/CDATA, a comment/PI/DOCTYPE, a reference or an element the type skips (i.e. the deserializer has to merge text, skip subtrees or unescape), or the result is Err after at least three tokens.",
-        assumptions: &["the document does not declare a non-UTF-8 encoding", "when the document starts with a byte-order mark the first piece has at least 4 bytes (the sniff looks only at the first piece, cf. C02)"],
+        assumptions: &["the document does not declare a non-UTF-8 encoding and does not start with a UTF-16 byte-order mark or the UTF-16 `<?` signature (the documented auto-detection would treat it as UTF-16 when read from a reader)", "when the document starts with a byte-order mark the first piece has at least 4 bytes (the sniff looks only at the first piece, cf. C02)"],
         level: "exploration",
         variants: &["full", "min"],
     }
 }
 
 pub fn check(c: &Case) -> Verdict {
+    // a document that starts with a UTF-16 signature is, by the documented detection algorithm,
+    // not a UTF-8 document for the reader entry point (from_str fixes UTF-8): outside the domain
+    if crate::refxml::is_utf16_like(c.input.as_bytes()) {
+        return Verdict::excluded("utf16-signature");
+    }
     let a = c.ty.from_str(&c.input);
     let cuts = super::c02::normalise_cuts(c.input.as_bytes(), &c.cuts);
     let b = c.ty.from_reader(ChunkedBufRead::new(c.input.as_bytes(), cuts.clone()));
